@@ -14,13 +14,14 @@ TWO53 = 1 << 53
 
 ENTRY = ["EDo", "EDoAcc", "EDoFb", "EDoFbAcc", "EAllowAccept", "EAllowReject"]
 CTX = ["CNone", "CLive", "CDone", "CLive"]   # 3: live at entry, cancelled by the request itself: CLive for the model
-OUT = ["OOk", "OErrU", "OErrA", "OPanic", "OErrSU", "OErrSUW", "OCanceled", "ODeadline", "OErrFB", "OPanicSU"]
+OUT = ["OOk", "OErrU", "OErrA", "OPanic", "OErrSU", "OErrSUW", "OCanceled", "ODeadline", "OErrFB", "OPanicSU",
+       "OOkRej", "OErrUAcc", "OPredPanic"]     # 10..12: the caller's predicate rejects a nil / accepts errU (side state) / panics
 RES = ["RNil", "RUnavailable", "RErrU", "RErrA", "RPanic", "RFallback", "RCtxDone", "ROther", "RErrSUW", "RDeadline",
        "RPanicSU"]
 # outcomes the caller's predicate (DoWithAcceptable / DoWithFallbackAcceptable) accepts
 ACC_OUT = (0, 2, 5, 6)
-BAD_OUT = (1, 1, 1, 2, 3, 4, 4, 5, 6, 7, 8, 9)      # what a "bad" request does (weights)
-GOOD_OUT = (0, 0, 0, 0, 2, 5, 6)                   # what a "good" request does
+BAD_OUT = (1, 1, 1, 2, 3, 4, 4, 5, 6, 7, 8, 9, 10, 10, 12)      # what a "bad" request does (weights)
+GOOD_OUT = (0, 0, 0, 0, 2, 5, 6, 11)                          # what a "good" request does
 
 OVERLAY = {
     "core/breaker/verif_c01_test.go": os.path.join(vlib.HARNESS, "overlay/breaker/verif_c01_test.go"),
@@ -344,8 +345,10 @@ class C01(Property):
                   "are skipped for agreement, the property check uses the property's own constants); overlay files "
                   "replace core/timex/relativetime.go and add a constructor to core/mathx.")
     rule = ("sequential histories of 1..400 calls over 6 entry points x 4 context modes (none, live, done, cancelled by the request "
-            "itself) x 10 outcomes (ok, unacceptable / acceptable error, panic, ErrServiceUnavailable bare / %w-wrapped, "
-            "context.Canceled / DeadlineExceeded under a live context, the fallback's own value, panic(ErrServiceUnavailable)), gaps in "
+            "itself) x 13 outcomes (ok, unacceptable / acceptable error, panic, ErrServiceUnavailable bare / %w-wrapped, "
+            "context.Canceled / DeadlineExceeded under a live context, the fallback's own value, panic(ErrServiceUnavailable), and the "
+            "caller's predicate as a callback: rejects a nil return / accepts the unacceptable error by side state / panics; how often "
+            "and with which argument it was asked is observed), gaps in "
             "{0, <250ms, k*250ms+-1ns, 1s+-1ns, 10s+-1ns, several windows, hours..months}, request durations, draws in {0, 2^-40, random "
             "53-bit, 1-2^-53}; ~14% forced interleavings of 2..44 concurrent calls; ~10% systems of 2..4 breakers (plain / registry names "
             "differing in case, trailing blank, prefix; method or package-level helper; NoBreakerFor; call trees of depth 1..3 towards a "
@@ -556,6 +559,19 @@ class C01(Property):
             calls += [call(e, 0, o, gap=SEC + 1, dur=SEC + 200 * MS, m=0), call(2, 0, 1, gap=MS, dur=3 * SEC, m=0),
                       call(0, 1, 1, gap=MS, m=0), call(2, 0, 1, gap=MS, m=0)]
         cs.append({"base": B + 13, "calls": calls})
+        # (10) the caller's predicate is a user callback: asked once, about the returned value, nil included.  A backend
+        # answering 100 % 5xx behind nil errors (rest/httpc's predicate: err == nil && status < 500): every call through
+        # DoWithAcceptable* / DoWithFallbackAcceptable* is a failure, the calls drawing 0 afterwards are shed; a predicate
+        # that accepts the "unacceptable" error keeps the breaker closed; a predicate that panics is a failure
+        # (seeded C01-11: a nil error never reached the predicate)
+        for e in (1, 3):
+            for c in (0, 1):
+                calls = [call(e, c, 10, gap=MS, m=big) for _ in range(30)] + [call(e, c, 10, gap=MS, m=0) for _ in range(4)]
+                calls += [call(e, c, 11, gap=SEC + 1, m=0)] + [call(e, c, 12, gap=MS, m=big) for _ in range(3)]
+                calls += [call(0, c, 10, gap=SEC + 1, m=0), call(2, c, 12, gap=SEC + 1, m=0), call(e, 2, 10, gap=1, m=0)]
+                cs.append({"base": B + 14, "calls": calls})
+        calls = [call([1, 3][i % 2], i % 2, 11, gap=MS, m=0) for i in range(40)] + [call(1, 0, 12, gap=MS, m=0) for _ in range(8)]
+        cs.append({"base": B + 15, "calls": calls})
         cs += self._conc_corpus()
         cs += self._wrapper_corpus()
         cs += self._multi_corpus()
@@ -786,6 +802,17 @@ class C01(Property):
             if phase == 0:
                 ops += [{"call": leaf(1, 0, 1, gap=0, m=big, via=1)} for _ in range(30)]
         cs.append({"base": B + 2, "insts": [1, 1], "mops": ops})
+        # (d) the caller's predicate as a callback (rejects a nil / accepts errU / panics) through the methods and the
+        # package-level helpers: 12 nil returns the predicate rejects, then draws of 0
+        ops = []
+        for j in range(12):
+            ops.append({"call": leaf(0, [1, 3][j % 2], 10, gap=MS, m=big, via=(j // 2) % 2, c=j % 2)})
+        for j in range(4):
+            ops.append({"call": leaf(0, [1, 3][j % 2], 10, gap=MS, m=0, via=(j // 2) % 2)})
+        for j in range(8):
+            ops.append({"call": leaf(1, [1, 3, 0, 2][j % 4], [11, 12][j // 4], gap=MS, m=0, via=j % 2)})
+        ops += [{"call": leaf(i, 0, 0, gap=0, c=2)} for i in range(2)]
+        cs.append({"base": B + 3, "insts": [1, 1], "mops": ops})
         return cs
 
     REST_OK = (200, 201, 204, 301, 400, 404, 429, 499, 103)
@@ -1034,8 +1061,8 @@ class C01(Property):
 
     def _obs(self, o):
         res = RES[o[0]] if 0 <= o[0] < len(RES) else "ROther"
-        return "mkI %s %s %s %s %s %s %s" % (res, cz(o[1]), cz(o[2]), cbool(o[3] == 1), cz(o[4]), cz(o[5]),
-                                          " ".join(cz(x) for x in o[6:16]))
+        return "mkI %s %s %s %s %s %s %s %s" % (res, cz(o[1]), cz(o[2]), cbool(o[3] == 1), cz(o[4]), cz(o[5]),
+                                             " ".join(cz(x) for x in o[6:16]), cz(o[16] if len(o) > 16 else 0))
 
     def _derr(self, cls, code):
         if cls == 13:
